@@ -3,6 +3,8 @@ import Firebolt.Spec.ExecTrace
 import Firebolt.Generated.Skeleton
 import Firebolt.Expected.Skeleton
 import Firebolt.Properties.ExecNet
+import Firebolt.Generated.Source
+import Firebolt.Expected.Source
 /-!
 # C01 — Event flow conservation through the node tree
 
@@ -150,5 +152,13 @@ theorem tree_channels_agree (cfg : Path → Cfg) (caps : Path → Nat) (disc : P
   obtain ⟨hG, hcfg, _⟩ := reachable_ginv cfg caps disc sched N hr
   subst hcfg
   exact link_fields N hG.link p k hk
+
+
+/-! ### functions the model's assumptions rest on (construction, wiring, surrounding calls) are unchanged -/
+theorem source_getNodeType : GeneratedSrc.getNodeType = ExpectedSrc.getNodeType := by rfl
+theorem source_invokeProcessorSync : GeneratedSrc.invokeProcessorSync = ExpectedSrc.invokeProcessorSync := by rfl
+theorem source_invokeProcessorFanout : GeneratedSrc.invokeProcessorFanout = ExpectedSrc.invokeProcessorFanout := by rfl
+theorem source_newAsyncEvent : GeneratedSrc.newAsyncEvent = ExpectedSrc.newAsyncEvent := by rfl
+theorem source_instantiateNode : GeneratedSrc.instantiateNode = ExpectedSrc.instantiateNode := by rfl
 
 end Firebolt.C01
